@@ -60,7 +60,7 @@ package hessian
 //@   ensures [C14,C03:bool-reject]   !(tagAvail && G.isBool(tag)) ==> err != nil
 
 //@ func encodeDouble
-//@   assigns @E
+//@   pure
 //@   ensures [C08,C13:double-no-error] err == nil
 //@   ensures [C08,C02:double-wf]       err == nil ==> G.doubleAt(result0, 0) && len(result0) == 1 + G.doubleRest(result0[0])
 //@   ensures [C08,C01:double-denotes]  err == nil ==> G.sameNum(G.decDouble(result0, 0), value)
